@@ -3,6 +3,8 @@ import LhasaV.Lemmas.GlobFs
 import LhasaV.Lemmas.MacProps
 import LhasaV.Lemmas.ExtractTree
 import LhasaV.Lemmas.CliProps
+import LhasaV.Lemmas.ArchiveOf
+import LhasaV.Lemmas.MessagesAgree
 /-!
 # C06 — extraction reproduces the archived tree: contents, names, times, modes, links
 -/
@@ -193,5 +195,77 @@ example : Cli.parseCommandLine [0x78, 0x71, 0x31] = some (.extract, { quiet := 1
 example : Cli.parseCommandLine [0x2d, 0x78, 0x66, 0x69, 0x77, 0x3d, 0x6f, 0x75, 0x74] =
     some (.extract, { overwriteAll := true, usePath := false, extractPath := some [0x6f, 0x75, 0x74] }) := by
   simp [Cli.parseCommandLine, Cli.stripDash, Cli.parseCommand, Cli.modeForChar, Cli.parseOptions]
+
+/-! ## End to end, on bytes
+
+`ArchiveOf.archiveWith pk es` is the archive an archiver writes for the tree `es`: one level-2 (or
+level-1) header per entry, built by the C05 header ENCODER `Spec.HeaderEnc.encode`, followed by the
+member's data packed by `pk` (`archiveOf` = stored `-lh0-` members). `Encodable es` (decidable): names
+without the bytes 0, 0xff, `|`; sizes, times and permission words within their fields; link targets
+without `/` (the file-name header cannot carry one). NO hypothesis about the reader remains. -/
+
+open ExtractTree ExtractTree.Sample ArchiveOf Contain in
+/-- **Extraction reproduces the archived tree — closed form.** For EVERY well-formed, encodable
+tree: `lha x` on the bytes that encode it, into an empty directory (root or ordinary user), succeeds
+and leaves exactly that tree: every file with its contents, mode and time, every link with its
+target, every directory with its recorded permissions and time although it was written into
+after its creation; nothing outside changes. Chains C05 `header_roundtrip`, C16 `scan_finds_first`,
+C03 `null_round_trip`, C15's reader independence and the tree theorem. -/
+theorem extract_reproduces_tree (es : List Entry) (hwf : WellFormed es) (henc : Encodable es)
+    (o : Opts) (fs : Fs.St) (answers : Bytes) (ho : OptsOk o) (hfs : EmptyDir fs) (ha : Access fs) :
+    (run (archiveOf es) o fs answers).result = true ∧
+    (∀ p, p ≠ [] → Fs.lookup (run (archiveOf es) o fs answers).fs (fs.cwd ++ p) =
+      treeOf fs.now fs.umask es p) ∧
+    (es ≠ [] → fs.cwd ≠ [] →
+      ∃ m, Fs.lookup (run (archiveOf es) o fs answers).fs fs.cwd = some (.dir m fs.now)) ∧
+    (∀ x, ¬ fs.cwd <+: x → Fs.lookup (run (archiveOf es) o fs answers).fs x = Fs.lookup fs x) :=
+  ArchiveOf.extract_archiveOf es hwf henc o fs answers ho hfs ha
+
+open ExtractTree ExtractTree.Sample ArchiveOf Contain in
+/-- … for any member packer with a decoder round trip (`Packs`): stored at level 1 or 2, `-lzs-` and
+`-lz5-` literal runs are instantiated (`packOk_stored`, `packOk_storedL1`, `packOk_lzsLit`,
+`packOk_lz5Lit`); `packOk_of_roundtrip` is the adapter for the C01/C02/C04 round trips. -/
+theorem extract_reproduces_tree_packed (pk : Packer) (es : List Entry) (hwf : WellFormed es)
+    (henc : Encodable es) (hpk : Packs pk es) (o : Opts) (fs : Fs.St) (answers : Bytes) (ho : OptsOk o)
+    (hfs : EmptyDir fs) (ha : Access fs) :
+    (run (archiveWith pk es) o fs answers).result = true ∧
+    (∀ p, p ≠ [] → Fs.lookup (run (archiveWith pk es) o fs answers).fs (fs.cwd ++ p) =
+      treeOf fs.now fs.umask es p) ∧
+    (es ≠ [] → fs.cwd ≠ [] →
+      ∃ m, Fs.lookup (run (archiveWith pk es) o fs answers).fs fs.cwd = some (.dir m fs.now)) ∧
+    (∀ x, ¬ fs.cwd <+: x → Fs.lookup (run (archiveWith pk es) o fs answers).fs x = Fs.lookup fs x) :=
+  ArchiveOf.extract_archiveWith pk es hwf henc hpk o fs answers ho hfs ha
+
+open ExtractTree ExtractTree.Sample ArchiveOf Contain in
+/-- the hypothesis `Denotes` of `run_tree_partial` IS a theorem for such archives (any options, file
+system and answers) -/
+theorem archive_denotes_tree (es : List Entry) (hwf : WellFormed es) (henc : Encodable es)
+    (o : Opts) (fs : Fs.St) (answers : Bytes) :
+    Denotes (runFuel (archiveOf es)) (runInit (archiveOf es) o fs answers) es :=
+  ArchiveOf.archiveOf_denotes es hwf henc o fs answers
+
+open ExtractTree ExtractTree.Sample ArchiveOf in
+/-- non-vacuity: `a/` 0555, `a/x`, `a/b/` 0555, `a/b/y`, `a/b/l → y`, `z` — files included -/
+theorem sample_tree_with_files_extracts :
+    SampleOutcome (run (archiveOf sampleTree) {} sampleFs []) :=
+  ArchiveOf.sampleTree_extracts
+
+open MessagesAgree in
+/-- **The two models of the extraction loop agree** (`Extract.run`, over which the tree and
+containment theorems are proved, and `Messages.run .extract`, which also carries every message and
+the exit status and is compared with the real tool byte for byte): same file system incl. mutation
+log, reader state, result and abort flags — when the prompt answers are NUL-free, newline-terminated
+lines (at most 64) or nothing is asked, and no handled non-directory member has a path ending
+in '/'. Both side conditions are necessary (`#guard`ed counterexamples in Lemmas/MessagesAgree). -/
+theorem extract_models_agree (archive : Array UInt8) (o : Opts) (fs : Fs.St) (answers : Bytes)
+    (hd : o.dryRun = false) (hp : PromptOk o.overwrite answers) (hs : TraceNoTrail archive o fs answers) :
+    (Extract.run archive o fs answers).fs = (Messages.run .extract archive o fs answers).x.fs ∧
+    (Extract.run archive o fs answers).rd = (Messages.run .extract archive o fs answers).x.rd ∧
+    (Extract.run archive o fs answers).result = (Messages.run .extract archive o fs answers).result ∧
+    (Extract.run archive o fs answers).aborted = (Messages.run .extract archive o fs answers).aborted ∧
+    ((Messages.run .extract archive o fs answers).aborted = false →
+      (Extract.run archive o fs answers).opts = (Messages.run .extract archive o fs answers).x.opts ∧
+      (Extract.run archive o fs answers).answers = (Messages.run .extract archive o fs answers).x.answers) :=
+  MessagesAgree.run_agree archive o fs answers hd hp hs
 
 end LhasaV.Props.C06
